@@ -11,7 +11,16 @@ Shape (C), two families of work units.
     parameters x min_separation x exclude_border x mask, and for each of them EVERY bound
     (sharplo/sharphi/roundlo/roundhi/peakmax) set exactly to, and just beyond, EVERY reported
     value of the unrestricted run, every brightest=n, and xycoords.  Contract oracle only
-    (DESIGN C14): no re-derivation of the DAOFIND fits.
+    (DESIGN C14): no re-derivation of the DAOFIND fits.  The scenes include background-subtracted
+    noise (zero mean, noise-level detections at a ~1.3 sigma threshold); on those EVERY pixel is
+    also a supplied position.  Every returned row is tied to its OWN peak / supplied position
+    (single-position runs), and its centroid must lie in the kernel box of that one.
+
+(3) signed-patch mosaics: ALL patches of a 9-cell template over a {negative, zero, positive}
+    alphabet, laid out as isolated tiles of one image; every tile centre (and off-centre pixels)
+    is a supplied position (xycoords replaces peak finding, so every patch reaches the centroid
+    computation, including its fall-back branches that only signed data can reach), and the
+    peak-finding call runs on the same image.  Per-row contract oracle as in (2).
 """
 import itertools
 import math
@@ -29,12 +38,27 @@ RULE = ('find_peaks: full Cartesian product of every image of the listed shape o
         '"alphabet"); a case is non-trivial when the image is not constant and the reference selects at least one '
         'peak but not every pixel.  Star finders: full product scene x finder configuration x mask, and inside it '
         'one call per (bound, reported value, exactly-at / just-beyond), per brightest=n and per xycoords list; a '
-        'call is non-trivial when the unrestricted run of its configuration returns at least one row.')
+        'call is non-trivial when the unrestricted run of its configuration returns at least one row.  Every '
+        'contract peak of a detection family is re-run as a single supplied position (row <-> own peak); on the '
+        'noise-dominated scenes every pixel of the image is a supplied position, fed in the residue classes modulo '
+        '(2*ky+1, 2*kx+1) so that each returned row is attributable.  Signed-patch mosaics: full product of every '
+        'assignment of the alphabet to the cells of the template x finder configuration x offset of the supplied '
+        'position (per finder: see "signed_patch_mosaics"), 19683 tiles per call; one case per supplied position, '
+        'non-trivial when the patch holds both a negative and a positive value (only then can a first-moment or '
+        'fitted shift leave the kernel box); plus one peak-finding call per mosaic.')
 ASSUMPTIONS = ['numpy elementwise arithmetic/comparisons are trusted; scipy.ndimage.maximum_filter and '
                'scipy.ndimage.convolve are NOT trusted (re-derived in mcphot/ref/peaks.py)',
                'the density-enhancement kernel array of DAOStarFinder/IRAFStarFinder (finder.kernel.data/.mask/.relerr) '
                'is taken from the implementation: the check is about which sources are selected, not about the kernel formula',
-               'find_peaks images are at most 3x4; star-finder scenes are 21x25 with at most 3 sources',
+               'find_peaks images are at most 3x4; star-finder scenes are 21x25 with at most 3 sources (or pure noise)',
+               'signed-patch mosaics: the patches are tiles of ONE image, separated by more than a kernel of zeros, and '
+               'are measured by one batched xycoords call (documented: one row per supplied position, in order); a row '
+               'is attributed to the tile nearest to its centroid, an unattributable row is re-run as a single-tile '
+               'image and reported as that case.  Patches differ from zero only in 9 cells with 3 (thorough: up to 4) '
+               'levels; values inside a kernel box beyond that are covered only by the noise scenes (generic reals)',
+               'on the mosaics the peak-finding call is judged only by "centroid within the kernel box of a possible '
+               'peak of the independently convolved image" (exact ties make the peak set ambiguous there); the peak '
+               'set itself is judged on the scenes',
                'NaN neighbours are read as "no value" (they never compete); a NaN pixel itself never exceeds a threshold',
                'constant images are a documented special case of find_peaks (None + warning) and are not judged']
 
@@ -362,21 +386,41 @@ SCENES = {
     'three-sat': ([(6, 6, 100, 2.5, 1, 0), (12, 14, 300, 2.5, 1, 0), (19, 7, 50, 3.5, 1, 0)], []),
     'blank': ([], []),
     'zeros': (None, []),
+    # background-subtracted sky: zero-mean noise of sigma 4 (third element; default 0.2), so that the lowest
+    # threshold of the configuration product (5.0) is a ~1.3 sigma cut: every kernel box holds negative pixels,
+    # detections are noise-level peaks.  'noise-faint' adds two ~2 sigma sources.
+    'noise': ([], [], 4.0),
+    'noise-faint': ([(8, 10, 9, 2.5, 1, 0), (16, 11, 7, 2.5, 1, 0)], [], 4.0),
 }
 SCENES_QUICK = ('single', 'pair-x4', 'pair-x4-rev', 'pair-x5-rev', 'pair-diag5', 'border', 'elongated', 'bowl', 'nan', 'three-sat',
-                'blank', 'zeros')
+                'blank', 'zeros', 'noise', 'noise-faint')
 SCENES_THOROUGH = tuple(SCENES)
+# stream ids of the per-scene noise generators (fixed: adding a scene must not change the others)
+_SCENE_RNG_ID = {'blank': 0, 'border': 1, 'bowl': 2, 'elongated': 3, 'nan': 4, 'pair-diag5': 5, 'pair-x4': 6, 'pair-x4-rev': 7,
+                 'pair-x5': 8, 'pair-x5-rev': 9, 'pair-x6': 10, 'pair-y5-rev': 11, 'single': 12, 'three-sat': 13, 'zeros': 14,
+                 'noise': 101, 'noise-faint': 102}
+
+
+def scene_spec(name):
+    """-> (sources, NaN pixels, noise sigma)"""
+    sp = SCENES[name]
+    return sp[0], sp[1], (sp[2] if len(sp) > 2 else 0.2)
+
+
+def scene_is_dense(name):
+    """noise-dominated scenes: every pixel is additionally used as a supplied position (xycoords)"""
+    return scene_spec(name)[2] >= 1.0
 MASKS = (None, 'src0')                # 'src0': the centre pixel of the first source is masked
 
 
 def make_scene(name, seed):
     """Seed only picks the generic reals (noise image, 3 % amplitude jitter)."""
-    srcs, nans = SCENES[name]
+    srcs, nans, sigma = scene_spec(name)
     ny, nx = SHAPE
     if srcs is None:
         return np.zeros(SHAPE)
-    rng = np.random.default_rng([int(seed), 1401, sorted(SCENES).index(name)])
-    data = 0.2 * rng.standard_normal(SHAPE)
+    rng = np.random.default_rng([int(seed), 1401, _SCENE_RNG_ID[name]])
+    data = sigma * rng.standard_normal(SHAPE)
     yy, xx = np.mgrid[:ny, :nx]
     for (x0, y0, amp, fwhm, ratio, theta) in srcs:
         amp = amp * (1.0 + 0.03 * rng.uniform(-1, 1))
@@ -394,7 +438,7 @@ def make_scene(name, seed):
 def make_mask(name, mask):
     if mask is None:
         return None
-    srcs, _ = SCENES[name]
+    srcs = scene_spec(name)[0]
     m = np.zeros(SHAPE, bool)
     if srcs:
         m[srcs[0][1], srcs[0][0]] = True
@@ -475,7 +519,7 @@ PEAKCOL = {'DAO': 'peak', 'IRAF': 'peak', 'SF': 'max_value'}
 class SFHarness:
     """One (scene, mask, configuration): builds finders, runs them, keeps counts."""
 
-    def __init__(self, acc, case, seed):
+    def __init__(self, acc, case, seed, data=None, mask=None):
         from photutils.detection import DAOStarFinder, IRAFStarFinder, StarFinder
         from photutils.utils.exceptions import NoDetectionsWarning
         self.cls = {'DAO': DAOStarFinder, 'IRAF': IRAFStarFinder, 'SF': StarFinder}
@@ -484,8 +528,13 @@ class SFHarness:
         self.case = case
         self.cfg = case['config']
         self.F = self.cfg['finder']
-        self.data = make_scene(case['scene'], seed)
-        self.mask = make_mask(case['scene'], case['mask'])
+        self.seed = seed
+        if data is None:
+            self.data = make_scene(case['scene'], seed)
+            self.mask = make_mask(case['scene'], case['mask'])
+        else:                      # an image built by the caller (signed-patch mosaics, single-position re-runs)
+            self.data = data
+            self.mask = mask
         self.calls = 0
 
     def build(self, **extra):
@@ -605,8 +654,8 @@ def shifted_max(img, offsets):
     return out
 
 
-def contract_peaks(conv, offsets, thr, border, mask, eps):
-    """-> (sure, maybe) lists of (x, y) in raster order.
+def contract_peak_maps(conv, offsets, thr, border, mask, eps):
+    """-> (sure, maybe) boolean maps.
 
     sure : value > thr + eps and > every other neighbour + eps; maybe: within eps of either
     decision (the implementation's convolution differs from ours in the last bits)."""
@@ -626,6 +675,12 @@ def contract_peaks(conv, offsets, thr, border, mask, eps):
     no = ~valid | (v < thr - eps) | (other > v + eps)
     sure = valid & (v > thr + eps) & (other < v - eps)
     maybe = ~no & ~sure
+    return sure, maybe
+
+
+def contract_peaks(conv, offsets, thr, border, mask, eps):
+    """-> (sure, maybe) of contract_peak_maps as lists of (x, y) in raster order."""
+    sure, maybe = contract_peak_maps(conv, offsets, thr, border, mask, eps)
     ys, xs = np.nonzero(sure)
     sure_l = list(zip(xs.tolist(), ys.tolist()))
     ys, xs = np.nonzero(maybe)
@@ -633,8 +688,9 @@ def contract_peaks(conv, offsets, thr, border, mask, eps):
     return sure_l, maybe_l
 
 
-def sf_expected_positions(h):
-    """All position lists the contract admits for this configuration (usually exactly one)."""
+def sf_detect_rule(h):
+    """-> (kernel array, kernel footprint, threshold on the convolved image, min_separation, border,
+    independently convolved image, eps, neighbourhood variants) of this configuration."""
     c = h.cfg
     F = h.F
     if F == 'SF':
@@ -671,6 +727,13 @@ def sf_expected_positions(h):
         incl = R.disc_offsets(ms)
         strict = [(dy, dx) for dy, dx in incl if dx * dx + dy * dy < ms * ms]
         variants = [incl] + ([strict] if len(strict) != len(incl) else [])   # distance == min_separation: either
+    return kern, kfoot, thr, ms, border, conv, eps, variants
+
+
+def sf_expected_positions(h):
+    """All position lists the contract admits for this configuration (usually exactly one)."""
+    kern, kfoot, thr, ms, border, conv, eps, variants = sf_detect_rule(h)
+    ky, kx = kern.shape
     lists = []
     ambiguous = 0
     for offs in variants:
@@ -690,7 +753,7 @@ def sf_reference_rows(h, positions):
     """StarFinder has no xycoords: its documented measurements (moments of the kernel-sized cut-out,
     negative pixels excluded) are evaluated directly."""
     ky, kx = sf_kernel(h.cfg['kernel']).shape
-    ny, nx = SHAPE
+    ny, nx = h.data.shape
     rows = []
     for (px, py) in positions:
         y0, y1 = max(0, py - ky // 2), min(ny, py + ky // 2 + 1)
@@ -706,8 +769,15 @@ def sf_reference_rows(h, positions):
         musum = (cut * ((ii - xc) ** 2 + (jj - yc) ** 2)).sum() / tot
         if not musum > 0:      # a single positive pixel: fwhm 0, roundness 0/0 -> documented non-detection
             continue
-        rows.append({'xcentroid': xc + x0, 'ycentroid': yc + y0, 'flux': float(tot), 'max_value': float(cut.max())})
+        rows.append({'xcentroid': xc + x0, 'ycentroid': yc + y0, 'flux': float(tot), 'max_value': float(cut.max()),
+                     '_pos': (px, py)})
     return rows or None
+
+
+def in_box(r, p, kshape):
+    """the reported centroid lies within the kernel box (half the kernel size each way) centred on pixel p"""
+    ky, kx = kshape
+    return abs(r['xcentroid'] - p[0]) <= kx / 2 + 1e-9 and abs(r['ycentroid'] - p[1]) <= ky / 2 + 1e-9
 
 
 def sf_site(h, what):
@@ -747,15 +817,53 @@ def sf_detect(h, U):
         if d is None:
             # centroid within the kernel box of one of the peaks
             for r in (U or []):
-                if not any(abs(r['xcentroid'] - px) <= kx / 2 + 1e-9 and abs(r['ycentroid'] - py) <= ky / 2 + 1e-9
-                           for px, py in pos):
+                if not any(in_box(r, p, (ky, kx)) for p in pos):
                     acc.violation('sf-centroid-in-kernel', f'{h.F}', dict(case, probe='unrestricted'),
                                   (r['xcentroid'], r['ycentroid']), pos)
+            # ... and, row by row, of its OWN peak (a stray centroid may land next to another peak).  The rows of
+            # U are identified with their peaks through single-position runs: U == E == the single rows in order.
+            sf_own_peak(h, U, pos, E)
             return pos
     pos, E, d = results[0]
     acc.violation('sf-detect', sf_site(h, 'peaks'), dict(case, probe='unrestricted'), brief(U),
                   brief(E), f'contract peaks {pos}; {d}')
     return None
+
+
+def sf_own_peak(h, U, pos, E):
+    """Every row of the unrestricted run lies within the kernel box of the peak it was measured at."""
+    acc, case = h.acc, h.case
+    if not U or not pos:
+        return
+    kshape = (sf_kernel(h.cfg['kernel']) if h.F == 'SF' else np.asarray(h.build().kernel.data)).shape
+    if h.F == 'SF':
+        # the reference rows carry their peak; U == E up to order (already established)
+        srt = lambda rows: sorted(rows, key=lambda r: (round(r['ycentroid'], 6), round(r['xcentroid'], 6)))  # noqa: E731
+        for r, e in zip(srt(U), srt(E)):
+            if not in_box(r, e['_pos'], kshape):
+                acc.violation('sf-centroid-in-kernel', f'{h.F}:own-peak', dict(case, probe='unrestricted'),
+                              (r['xcentroid'], r['ycentroid']), list(e['_pos']))
+        return
+    singles = []
+    for p in pos:
+        probe = {'xycoords': [list(p)]}
+        T1 = h.run(probe, xycoords=np.array([p]))
+        if T1 == 'error':
+            return
+        if T1 is None:
+            continue
+        if len(T1) != 1:
+            acc.violation('sf-xycoords', f'{h.F}:one-position-many-rows', dict(case, probe=probe), len(T1), 1)
+            return
+        singles.append(T1[0])
+        if not in_box(T1[0], p, kshape):
+            acc.violation('sf-centroid-in-kernel', f'{h.F}:own-peak', dict(case, probe=probe),
+                          (T1[0]['xcentroid'], T1[0]['ycentroid']), list(p),
+                          f'kernel box {kshape[1]} x {kshape[0]} (nx x ny) centred on the peak')
+    d = rows_equal(E, singles or None, ordered=True)
+    if d is not None:
+        acc.violation('sf-xycoords', f'{h.F}:rows-in-order', dict(case, probe={'xycoords': [list(p) for p in pos]}),
+                      brief(E), brief(singles), d)
 
 
 def sf_brightest(h, U):
@@ -813,7 +921,7 @@ def sf_xycoords(h):
     F = h.F
     if F == 'SF':
         return
-    srcs, _ = SCENES[case['scene']]
+    srcs = scene_spec(case['scene'])[0]
     Q = [(s[0], s[1]) for s in (srcs or [])]
     if Q:
         Q.append((Q[0][0] + 1, Q[0][1]))        # one pixel off the first source
@@ -873,6 +981,9 @@ def sf_xycoords(h):
     # the same filters apply to supplied positions
     if TQ:
         sf_bounds(h, TQ, extra={'xycoords': np.array(Q)}, tag=':xycoords')
+    # noise-dominated scenes: EVERY pixel of the image as a supplied position
+    if scene_is_dense(case['scene']):
+        sf_dense_xycoords(h, (ky, kx), kmask)
 
 
 def sf_family(acc, case, seed):
@@ -919,6 +1030,363 @@ def sf_families(tier):
 
 
 # ---------------------------------------------------------------------------------------------
+# supplied positions on a regular grid (one batched xycoords call, every row judged on its own)
+# ---------------------------------------------------------------------------------------------
+GRID_CONFIRM = 3          # violations written out per (clause, site) and batched call; the rest are only counted
+
+
+def grid_judge(F, data, rows, grid, kshape, kmask):
+    """rows = result of xycoords = R.grid_positions(grid).  Row by row (contract oracle only):
+
+    * the centroid lies within the kernel box of the supplied position it belongs to.  The pitches are
+      >= 2*kernel+1, so the boxes are disjoint and at least a full kernel apart: a centroid inside the box of
+      its position is nearest to that position, and the order of the rows must follow the supplied order;
+    * at most one row per position, rows in the order of the positions;
+    * the documented simple measurements (peak, flux, npix; IRAF also its first-moment centroid) are the ones
+      of exactly that position.  Sums of <= 49 pixel values: 1e-9 * max(1, sum|box|) is > 1e4 x rounding.
+
+    -> list of dicts(cands, clause, site, observed, expected, detail); cands = indices of the grid positions
+    the offending row may belong to."""
+    bads = []
+    if not rows:
+        return bads
+    ky, kx = kshape
+    xc = np.array([r['xcentroid'] for r in rows], float)
+    yc = np.array([r['ycentroid'] for r in rows], float)
+    idx = R.grid_assign(xc, yc, grid)
+    pos = R.grid_positions(grid)
+    own = pos[np.maximum(idx, 0)]
+    inbox = (idx >= 0) & (np.abs(xc - own[:, 0]) <= kx / 2 + 1e-9) & (np.abs(yc - own[:, 1]) <= ky / 2 + 1e-9)
+    sel = np.nonzero(inbox)[0]
+    for k in np.nonzero(~inbox)[0].tolist():
+        before = sel[sel < k]
+        after = sel[sel > k]
+        lo = int(idx[before[-1]]) + 1 if before.size else 0
+        hi = int(idx[after[0]]) if after.size else grid['n']
+        cands = list(range(lo, max(lo, hi)))[:40] or list(range(grid['n']))[:40]
+        near = [int(v) for v in pos[cands[0]]] if len(cands) == 1 else None
+        bads.append(dict(cands=cands, clause='sf-centroid-in-kernel', site=f'{F}:xycoords',
+                         observed=(float(xc[k]), float(yc[k])),
+                         expected=near if near else f'within the {kx} x {ky} box of one of the supplied positions',
+                         detail=f'row {k} of {len(rows)}; supplied positions {lo}..{hi - 1} of the call are candidates'))
+    gi = idx[sel]
+    for k in np.nonzero(np.diff(gi) <= 0)[0].tolist()[:GRID_CONFIRM]:
+        bads.append(dict(cands=[int(gi[k]), int(gi[k + 1])], clause='sf-xycoords', site=f'{F}:rows-in-order',
+                         observed=[int(gi[k]), int(gi[k + 1])], expected='strictly increasing position index',
+                         detail=f'rows {int(sel[k])} and {int(sel[k + 1])}'))
+    if sel.size:
+        cuts = R.box_cutouts(data, pos[idx[sel]], kshape)
+        exp = R.simple_measurements(F, cuts, kmask)
+        finite = np.where(np.isfinite(cuts), np.abs(cuts), 0.0)
+        tol = 1e-9 * np.maximum(1.0, finite.sum(axis=(1, 2)))
+        want = {'peak': exp['peak'], 'flux': exp['flux'], 'npix': exp['npix']}
+        if F == 'IRAF':
+            want['xcentroid'] = exp['xcentroid_in_box'] + pos[idx[sel], 0] - kx // 2
+            want['ycentroid'] = exp['ycentroid_in_box'] + pos[idx[sel], 1] - ky // 2
+        for c, e in want.items():
+            g = np.array([rows[k][c] for k in sel.tolist()], float)
+            with np.errstate(invalid='ignore'):
+                wrong = ~(np.abs(g - e) <= tol)
+            for m in np.nonzero(wrong)[0].tolist():
+                bads.append(dict(cands=[int(idx[sel[m]])], clause='sf-xycoords', site=f'{F}:verbatim:{c}',
+                                 observed=float(g[m]), expected=float(e[m]),
+                                 detail=f'measured at {[int(v) for v in pos[idx[sel[m]]]]}'))
+    return bads
+
+
+def grid_emit(acc, case, probe, bads, single_runner):
+    """Write the offending rows of one batched call out as violations of the smallest case that shows them:
+    the single supplied position (single_runner(index) -> violations of that one-position case); a row that
+    only misbehaves inside the batched call is reported with the batched call as its case."""
+    per_key = {}
+    cache = {}
+    for b in bads:
+        key = (b['clause'], b['site'])
+        per_key[key] = per_key.get(key, 0) + 1
+        if per_key[key] > GRID_CONFIRM:
+            acc.counters['violating_cases'] += 1
+            continue
+        hit = None
+        for t in (b['cands'] if single_runner is not None else []):
+            if t not in cache:
+                cache[t] = single_runner(t)
+            m = [v for v in cache[t] if (v['clause'], v['site']) == key]
+            if m:
+                hit = m[0]
+                break
+        if hit is not None:
+            if len(acc.violations) < 400:
+                acc.violations.append(hit)
+            acc.counters['violating_cases'] += 1
+        else:
+            acc.violation(b['clause'], b['site'], dict(case, probe=probe), b['observed'], b['expected'],
+                          b['detail'] + ('' if single_runner is None else ' [not shown by any single-position call]'))
+
+
+def sf_dense_xycoords(h, kshape, kmask):
+    """Every pixel of the image is a supplied position.  They are fed in batches = the residue classes of the
+    pixel grid modulo (2*ky+1, 2*kx+1), so that the kernel boxes of one call are a full kernel apart and every
+    returned row is attributable to its position."""
+    acc, case, F = h.acc, h.case, h.F
+    ky, kx = kshape
+    ny, nx = h.data.shape
+    py, px = 2 * ky + 1, 2 * kx + 1
+
+    def single_runner_for(grid):
+        pos = R.grid_positions(grid)
+
+        def run1(t):
+            tmp = Acc()
+            h1 = SFHarness(tmp, case, h.seed, data=h.data, mask=h.mask)
+            q = [int(v) for v in pos[t]]
+            probe = {'xycoords': [q]}
+            rows = h1.run(probe, xycoords=np.array([q]))
+            if rows == 'error':
+                return tmp.violations
+            g1 = dict(ox=q[0], oy=q[1], px=px, py=py, ncols=1, nrows=1, n=1)
+            grid_emit(tmp, case, probe, grid_judge(F, h.data, rows, g1, kshape, kmask), None)
+            return tmp.violations
+        return run1
+
+    for b in range(min(py, ny)):
+        for a in range(min(px, nx)):
+            ncols = len(range(a, nx, px))
+            nrows = len(range(b, ny, py))
+            grid = dict(ox=a, oy=b, px=px, py=py, ncols=ncols, nrows=nrows, n=ncols * nrows)
+            probe = {'xycoords_grid': grid}
+            rows = h.run(probe, xycoords=R.grid_positions(grid))
+            if rows == 'error':
+                continue
+            acc.counters['dense_xycoords_positions'] += grid['n']
+            acc.counters['dense_xycoords_rows'] += len(rows or [])
+            grid_emit(acc, case, probe, grid_judge(F, h.data, rows, grid, kshape, kmask), single_runner_for(grid))
+
+
+# ---------------------------------------------------------------------------------------------
+# signed-patch mosaics: ALL patches of a template over a small signed alphabet, each measured at its centre
+# ---------------------------------------------------------------------------------------------
+# template -> cells (dy, dx) relative to the tile centre; every cell runs over the whole alphabet
+PATCH_TEMPLATES = {
+    'c33': [(dy, dx) for dy in (-1, 0, 1) for dx in (-1, 0, 1)],                                   # the central 3x3
+    'plus': [(0, dx) for dx in (-2, -1, 0, 1, 2)] + [(dy, 0) for dy in (-2, -1, 1, 2)],           # central row + column
+    'diag': [(d, d) for d in (-2, -1, 0, 1, 2)] + [(-d, d) for d in (-2, -1, 1, 2)],              # the two diagonals
+}
+# supplied position = tile centre + (dx, dy): the patch sits centred / off-centre in the kernel box.  The
+# patch sets are closed under point reflection, as are the kernels, so (1,0),(0,1),(1,1),(1,-1) stand for all 8.
+PATCH_AT = ((0, 0), (1, 0), (0, 1), (1, 1), (1, -1))
+PATCH_TILES_PER_CALL = 19683          # 3**9
+
+
+def patch_at(tier, finder):
+    """Offsets of the supplied position per finder (cost: ~0.1 ms per position and call, spent inside photutils).
+    The DAOFIND marginal fit is the centroid computation with fall-back branches: it gets the wider product."""
+    if finder == 'SF':
+        return ()                      # StarFinder has no xycoords
+    if tier == 'thorough':
+        return PATCH_AT
+    return PATCH_AT[:3] if finder == 'DAO' else PATCH_AT[:1]
+
+
+def patch_detect(tier, finder):
+    """Is the peak-finding call made on the mosaic?  (IRAFStarFinder spends ~0.2 ms per source: quick tier only
+    feeds it the supplied positions; its peak finding on signed data is covered by the noise scenes.)"""
+    return tier == 'thorough' or finder != 'IRAF'
+
+
+def patch_alpha(name, seed):
+    """'L*' lattices (exact zero sums, ties); 'G': negative / zero / positive generic reals chosen by the seed."""
+    if name == 'L':
+        return (-1.0, 0.0, 1.0)
+    if name == 'Ln':
+        return (-2.0, 0.0, 1.0)
+    if name == 'Lp':
+        return (-1.0, 0.0, 2.0)
+    if name == 'L4':
+        return (-1.0, 0.0, 1.0, 2.0)
+    rng = np.random.default_rng([int(seed), 1402])
+    u, v = rng.uniform(0.0, 1.0, 2)
+    return (-(0.5 + float(u)), 0.0, 0.5 + float(v))
+
+
+def patch_configs(tier):
+    """Finder configurations of the mosaics: sharpness / roundness bounds wide open (SFHarness.build), a
+    threshold far below the cell values for the peak-finding call."""
+    dao = DAO_KERNELS if tier == 'thorough' else DAO_KERNELS[:2]
+    out = [{'finder': 'DAO', 'fwhm': f, 'ratio': r, 'theta': t, 'min_separation': 0.0, 'exclude_border': False,
+            'threshold': 0.05} for f, r, t in dao]
+    out += [{'finder': 'IRAF', 'fwhm': f, 'min_separation': 3.0, 'exclude_border': False, 'threshold': 0.05}
+            for f in (2.5, 5.5)]
+    out += [{'finder': 'SF', 'kernel': k, 'min_separation': 3.0, 'exclude_border': False, 'threshold': 0.05}
+            for k in (('g7', 'e57') if tier == 'thorough' else ('e57',))]
+    return out
+
+
+def patch_spaces(tier, finder):
+    """(template, alphabet) pairs of a finder; each is crossed with every configuration of that finder."""
+    if tier != 'thorough':
+        return [('c33', 'L'), ('c33', 'G')] if finder == 'DAO' else [('c33', 'G')]
+    sp = [(t, a) for t in ('c33', 'plus', 'diag') for a in ('L', 'G', 'Ln', 'Lp')]
+    return sp + ([('c33', 'L4')] if finder == 'DAO' else [])
+
+
+def patch_families(tier):
+    fams = []
+    for cfg in patch_configs(tier):
+        for tmpl, alpha in patch_spaces(tier, cfg['finder']):
+            total = len(patch_alpha(alpha, 0)) ** len(PATCH_TEMPLATES[tmpl])
+            nsh = -(-total // PATCH_TILES_PER_CALL)
+            for j in range(nsh):
+                fams.append({'kind': 'patch', 'tier': tier, 'config': cfg, 'template': tmpl, 'alpha': alpha,
+                             'shard': j, 'nshards': nsh})
+    return fams
+
+
+def patch_codes(fam, seed):
+    """-> (n, ncells) integer array of alphabet indices: one explicit code, or every nshards-th code of the
+    full product (itertools.product order: first cell most significant)."""
+    ncell = len(PATCH_TEMPLATES[fam['template']])
+    nsym = len(patch_alpha(fam['alpha'], seed))
+    if 'code' in fam:
+        return np.array([fam['code']], int).reshape(1, ncell)
+    t = np.arange(fam['shard'], nsym ** ncell, fam['nshards'])
+    return (t[:, None] // (nsym ** np.arange(ncell - 1, -1, -1))[None, :]) % nsym
+
+
+def patch_image(fam, seed, kshape):
+    """-> (image, codes, grid of the tile centres).  Tiles of (2*ky+e-2) x (2*kx+e-2) pixels (e = extent of the
+    template, 3 or 5): every kernel box centred on a pixel the patch can influence stays inside its own tile,
+    and the kernel boxes of the supplied positions are more than a kernel apart."""
+    cells = PATCH_TEMPLATES[fam['template']]
+    alpha = np.array(patch_alpha(fam['alpha'], seed))
+    codes = patch_codes(fam, seed)
+    n = len(codes)
+    ky, kx = kshape
+    ext = 1 + 2 * max(max(abs(dy), abs(dx)) for dy, dx in cells)
+    py, px = 2 * ky + ext - 2, 2 * kx + ext - 2
+    ncols = min(n, 150)
+    nrows = -(-n // ncols)
+    img = np.zeros((nrows * py, ncols * px))
+    t = np.arange(n)
+    cyt = (t // ncols) * py + py // 2
+    cxt = (t % ncols) * px + px // 2
+    for c, (dy, dx) in enumerate(cells):
+        img[cyt + dy, cxt + dx] = alpha[codes[:, c]]
+    grid = dict(ox=px // 2, oy=py // 2, px=px, py=py, ncols=ncols, nrows=nrows, n=n)
+    return img, codes, grid
+
+
+def detect_literal(h, U, kshape):
+    """Peak-finding call: every returned centroid lies within the kernel box of a pixel that the contract may
+    select as a peak of the independently convolved image (certain or within eps of a decision -- the lattice
+    mosaics are full of exact ties, so the peak SET is not judged here).  -> offending rows."""
+    if not U:
+        return []
+    kern, kfoot, thr, ms, border, conv, eps, variants = sf_detect_rule(h)
+    cand = np.zeros(conv.shape, bool)
+    for offs in variants:
+        sure, maybe = contract_peak_maps(conv, offs, thr, border, h.mask, eps)
+        cand |= sure | maybe
+    ky, kx = kshape
+    ny, nx = cand.shape
+    bad = []
+    for k, r in enumerate(U):
+        x0 = max(0, math.ceil(r['xcentroid'] - kx / 2 - 1e-9))
+        x1 = min(nx - 1, math.floor(r['xcentroid'] + kx / 2 + 1e-9))
+        y0 = max(0, math.ceil(r['ycentroid'] - ky / 2 - 1e-9))
+        y1 = min(ny - 1, math.floor(r['ycentroid'] + ky / 2 + 1e-9))
+        if x1 < x0 or y1 < y0 or not cand[y0:y1 + 1, x0:x1 + 1].any():
+            bad.append((k, r))
+    return bad
+
+
+def patch_family(acc, fam, seed):
+    """One mosaic (or one single tile when fam has 'code'): xycoords = tile centres + every offset of PATCH_AT
+    (DAO, IRAF), and the peak-finding call (all three finders)."""
+    F = fam['config']['finder']
+    single = 'code' in fam
+    h0 = SFHarness(acc, fam, seed, data=np.zeros((3, 3)))
+    if F == 'SF':
+        kshape = sf_kernel(fam['config']['kernel']).shape
+        kmask = np.ones(kshape, bool)
+    else:
+        try:
+            k0 = h0.build().kernel
+        except Exception as e:
+            acc.violation('sf-raises', f'{F}:constructor:{type(e).__name__}', dict(fam, probe='build'), repr(e), 'no exception')
+            return
+        kmask = np.array(k0.mask).astype(bool)
+        kshape = kmask.shape
+    img, codes, grid = patch_image(fam, seed, kshape)
+    alpha = np.array(patch_alpha(fam['alpha'], seed))
+    vals = alpha[codes]
+    signed = int(((vals < 0).any(axis=1) & (vals > 0).any(axis=1)).sum())
+    n = len(codes)
+    h = SFHarness(acc, fam, seed, data=img)
+    base = {k: v for k, v in fam.items() if k not in ('shard', 'nshards', 'code')}
+    cache = {}
+
+    def single_runner(t):
+        if t not in cache:
+            tmp = Acc()
+            patch_family(tmp, dict(base, code=[int(c) for c in codes[t]]), seed)
+            cache[t] = tmp.violations
+        return cache[t]
+
+    runner = None if single else single_runner
+    for at in patch_at(fam.get('tier', 'quick'), F):
+        g = dict(grid, ox=grid['ox'] + at[0], oy=grid['oy'] + at[1])
+        probe = {'xycoords': 'tile centre + at', 'at': list(at)}
+        rows = h.run(probe, xycoords=R.grid_positions(g))
+        acc.evaluations += n
+        acc.nontrivial += signed
+        if rows == 'error':
+            continue
+        acc.counters['patch_positions'] += n
+        acc.counters['patch_rows'] += len(rows or [])
+        if rows:
+            # rows whose centroid sits exactly on the supplied pixel in x or y: the shift was reset / is zero
+            acc.counters['patch_rows_with_zero_shift'] += sum(
+                1 for r in rows if r['xcentroid'] == round(r['xcentroid']) or r['ycentroid'] == round(r['ycentroid']))
+        grid_emit(acc, fam, probe, grid_judge(F, img, rows, g, kshape, kmask), runner)
+        if at == (0, 0) and not single:
+            acc.outcome(f'{F}:{len(rows or [])}')
+    # the peak-finding call on the same image
+    if not patch_detect(fam.get('tier', 'quick'), F):
+        return
+    U = h.run('unrestricted')
+    acc.case(nontrivial=bool(U) and U != 'error', sample=fam if fam.get('shard', 1) == 0 else None)
+    if U == 'error':
+        return
+    acc.counters['patch_detect_rows'] += len(U or [])
+    bad = detect_literal(h, U, kshape)
+    per = 0
+    for k, r in bad:
+        per += 1
+        if per > GRID_CONFIRM:
+            acc.counters['violating_cases'] += 1
+            continue
+        obs = (r['xcentroid'], r['ycentroid'])
+        hit = None
+        if runner is not None:
+            t0 = int(R.grid_assign([obs[0]], [obs[1]], dict(grid, n=grid['ncols'] * grid['nrows']))[0])
+            near = [t0 + a * grid['ncols'] + b for a in (0, -1, 1) for b in (0, -1, 1)] if t0 >= 0 else []
+            for t in near:
+                if 0 <= t < n:
+                    m = [v for v in runner(t) if v['key'] == f'sf-centroid-in-kernel|{F}:detected-peak']
+                    if m:
+                        hit = m[0]
+                        break
+        if hit is not None:
+            if len(acc.violations) < 400:
+                acc.violations.append(hit)
+            acc.counters['violating_cases'] += 1
+        else:
+            acc.violation('sf-centroid-in-kernel', f'{F}:detected-peak', dict(fam, probe='unrestricted'), obs,
+                          'within the kernel box of a pixel the contract can select as a peak', f'row {k} of {len(U)}')
+
+
+
+# ---------------------------------------------------------------------------------------------
 # plan / run / replay
 # ---------------------------------------------------------------------------------------------
 def plan(tier, seed):
@@ -932,6 +1400,8 @@ def plan(tier, seed):
     nsh = 16 if tier != 'thorough' else 64
     for j in range(nsh):
         units.append({'kind': 'starfinder', 'shard': j, 'nshards': nsh, 'families': nf})
+    for fam in patch_families(tier):
+        units.append(fam)
     return units
 
 
@@ -939,6 +1409,8 @@ def run_unit(unit, tier, seed):
     acc = Acc()
     if unit['kind'] == 'find_peaks':
         run_fp_unit(acc, unit, tier)
+    elif unit['kind'] == 'patch':
+        patch_family(acc, unit, seed)
     else:
         for i, fam in enumerate(sf_families(tier)):
             if i % unit['nshards'] == unit['shard']:
@@ -950,6 +1422,8 @@ def replay(case, seed):
     acc = Acc()
     if case.get('kind') == 'find_peaks':
         fp_case(acc, case, _fp_mods())
+    elif case.get('kind') == 'patch':
+        patch_family(acc, {k: v for k, v in case.items() if k != 'probe'}, seed)
     else:
         fam = {k: v for k, v in case.items() if k != 'probe'}
         sf_family(acc, fam, seed)
@@ -966,7 +1440,8 @@ def describe(tier, seed):
     fams = sf_families(tier)
     scenes = SCENES_THOROUGH if tier == 'thorough' else SCENES_QUICK
     star = {'image_shape': list(SHAPE),
-            'scenes': {k: {'sources_x_y_amp_fwhm_ratio_theta': SCENES[k][0], 'nan_pixels_y_x': SCENES[k][1]} for k in scenes},
+            'scenes': {k: {'sources_x_y_amp_fwhm_ratio_theta': SCENES[k][0], 'nan_pixels_y_x': SCENES[k][1],
+                           'noise_sigma': scene_spec(k)[2], 'every_pixel_as_xycoords': scene_is_dense(k)} for k in scenes},
             'masks': ['None', 'centre pixel of the first source'],
             'families': {'detect': sum(1 for f in fams if f['family'] == 'detect'),
                          'filters': sum(1 for f in fams if f['family'] == 'filters')},
@@ -975,11 +1450,33 @@ def describe(tier, seed):
                            'min_separation (0 -> default from minsep_fwhm) x exclude_border x threshold; StarFinder '
                            'kernel {7x7 round, 5x7 elongated} x min_separation x exclude_border x threshold',
             'per_detect_family': 'unrestricted run == rows at the contract peaks of an independently convolved image; '
+                                 'every contract peak re-run as a single supplied position: centroid within the kernel '
+                                 'box (half the kernel size each way) of its OWN peak; '
                                  'brightest = 1..N+1; peakmax at / just beyond every reported peak; peakmax + brightest',
             'per_filters_family': 'additionally every bound (sharplo, sharphi, roundlo, roundhi, peakmax) exactly at and '
                                   'one ulp beyond every reported value; xycoords lists (source centres, off-centre, corner, '
-                                  'blank sky) singly and together, with the same bound sweep',
+                                  'blank sky) singly and together, with the same bound sweep; on the noise scenes '
+                                  'additionally every one of the 525 pixels as a supplied position (centroid in the box '
+                                  'of its own position, one row per position in order, peak/flux/npix verbatim)',
             'dao_kernels_fwhm_ratio_theta': [list(k) for k in (DAO_KERNELS if tier == 'thorough' else DAO_KERNELS[:2])]}
+    pf = patch_families(tier)
+    mos = {'templates_cells_dy_dx': {t: [list(c) for c in PATCH_TEMPLATES[t]] for t in sorted({f['template'] for f in pf})},
+           'alphabets': {a: list(patch_alpha(a, seed)) for a in sorted({f['alpha'] for f in pf})},
+           'tile': '(2*ky+e-2) x (2*kx+e-2) pixels, e = template extent; 150 tiles per mosaic row, <= 19683 tiles per image',
+           'products': []}
+    for cfg in patch_configs(tier):
+        F = cfg['finder']
+        spaces = patch_spaces(tier, F)
+        mos['products'].append({
+            'config': cfg, 'template_x_alphabet': [list(x) for x in spaces],
+            'supplied_position_offsets_dx_dy': [list(a) for a in patch_at(tier, F)],
+            'peak_finding_call': patch_detect(tier, F),
+            'tiles': sum(len(patch_alpha(a, 0)) ** len(PATCH_TEMPLATES[t]) for t, a in spaces)})
+    mos['oracle'] = ('xycoords: every row within the kernel box of its own supplied position, one row per position in '
+                     'order, peak/flux/npix (IRAF: and first-moment centroid) of exactly that position; peak finding: '
+                     'every row within the kernel box of a possible contract peak; ids, finiteness, None/warning as in '
+                     'the scenes')
+    star['signed_patch_mosaics'] = mos
     return {'alphabet': {'find_peaks_spaces': sps,
                          'footprints': {k: (v if isinstance(v, (str, type(None))) else v) for k, v in FOOT.items()},
                          'threshold_maps': {k: list(v) for k, v in THRMAP.items()},
